@@ -29,7 +29,7 @@ from harness.props import c03_faultfs
 from harness.props.c03_faultfs import FaultFS, _REAL
 
 PROP = "C03"
-DRIVER_MODULES = ["PsutilModel.Model.C03Gen", "PsutilModel.Spec.C03"]
+DRIVER_MODULES = ["PsutilModel.Model.C03Gen", "PsutilModel.Spec.C03", "PsutilModel.Model.C03Hist", "PsutilModel.Spec.C03Hist"]
 NEEDS_EXT = True
 TRUSTED = [
     "C03 world: behaviour tables of a zombie / a reaped process (which path gives ENOENT, ESRCH, empty) were captured from the sandbox kernel 6.18 and are re-checked against a live zombie child on every run; they are modelled, not verified",
@@ -581,6 +581,25 @@ class BuiltWorld:
                 self.fs.end()
         return out, trace, unknown, later
 
+    def run_history(self, calls, plan):
+        """ONE object built while everything is alive, then the calls in order under one plan whose access
+        indices run over the whole history. Returns (outcomes, start index of each call, trace, unknown)."""
+        ps = self.ps
+        self.prime()
+        try:
+            proc = ps.Process(self.target)
+        except Exception as e:  # noqa: BLE001
+            raise InfraError("cannot construct Process(%d) on the fake tree: %r" % (self.target, e))
+        self.fs.begin(plan)
+        outs, starts = [], []
+        try:
+            for call in calls:
+                starts.append(len(self.fs.trace))
+                outs.append(do_call(ps, proc, call))
+        finally:
+            trace = self.fs.end()
+        return outs, starts, trace, list(self.fs.unknown)
+
 
 SMAPS = (b"55d0a0000000-55d0a0021000 r--p 00000000 fd:01 1234                       /usr/bin/c03a\n"
          b"Size:                132 kB\nKernelPageSize:        4 kB\nMMUPageSize:           4 kB\nRss:                 132 kB\n"
@@ -842,6 +861,124 @@ def judge(res, inp, out, trace, unknown, later, m, known=()):
                      note="same outcome but a different access trace (model drift)")
 
 
+# ------------------------------------------------------------------------------ histories on one object
+
+HIST_NAMES = ["is_running", "children", "ppid", "name", "exe", "cmdline", "status", "username", "cwd", "nice", "uids",
+              "gids", "terminal", "num_fds", "io_counters", "ionice", "cpu_affinity", "cpu_num", "environ",
+              "num_ctx_switches", "num_threads", "threads", "cpu_times", "cpu_percent", "memory_info",
+              "memory_full_info", "memory_percent", "memory_maps", "open_files", "net_connections",
+              "children_recursive", "connections"]
+# the calls whose behaviour depends on the object's _gone / _pid_reused / _exe attributes come up more often
+HIST_FLAGGED = ["is_running", "ppid", "children", "children_recursive", "exe"]
+FIXED_HISTORIES = [
+    ["children", "name", "is_running", "is_running", "ppid"],
+    ["is_running", "ppid", "children", "children_recursive", "exe", "is_running"],
+    ["exe", "exe", "cwd", "exe"],
+    ["ppid", "ppid", "is_running", "children"],
+    ["threads", "open_files", "net_connections", "memory_full_info", "is_running"],
+]
+
+
+def random_history(rng):
+    n = rng.randint(2, 5)
+    return [rng.choice(HIST_FLAGGED) if rng.random() < 0.5 else rng.choice(HIST_NAMES) for _ in range(n)]
+
+
+def hist_gone_from(plan, ntrace):
+    """the index from which the process is gone and nothing is refused any more (None: never within the plan)"""
+    g = [k for k, st in plan.get("switch", []) if st == "gone"]
+    if not g:
+        return None
+    k0 = min(g)
+    for i, _ in plan.get("deny", []):
+        k0 = max(k0, i + 1)
+    return k0
+
+
+def hist_plans(trace):
+    """vanish at EVERY index of the fault-free history (also in the middle of a call), zombie-then-gone, and a
+    refused access before the vanish point (sets `_pid_reused` when it hits is_running())"""
+    out = []
+    n = len(trace)
+    for k in range(n + 1):
+        out.append({"switch": [[k, "gone"]]})
+    for k in range(0, n, 3):
+        out.append({"switch": [[k, "zombie"], [min(n, k + 2), "gone"]]})
+    for i in range(0, n, 2):
+        if scoped(trace[i]):
+            out.append({"deny": [[i, "EACCES"]], "switch": [[min(n, i + 3), "gone"]]})
+    return out
+
+
+def hist_line(names, plan, outs, k0):
+    return {"op": "hist", "methods": names, "plan": plan, "gone_from": k0, "impls": outs}
+
+
+def judge_history(res, inp, outs, starts, trace, unknown, m):
+    names, plan = inp["history"], inp["plan"]
+    res.count("family:history")
+    res.count("hist_plan:" + plan_family(plan))
+    res.count("hist_len", len(names))
+    res.case((inp["world"]["target"], json.dumps(inp["world"], sort_keys=True), json.dumps(names), json.dumps(plan)),
+             nontrivial=bool(plan), sample={"history": names, "plan": plan, "impl": outs, "starts": starts}
+             if len(names) >= 4 and plan.get("deny") else None)
+    spec = m["spec"]
+    after = 0
+    for i, (nm, o) in enumerate(zip(names, outs)):
+        if not spec["ok"][i]:
+            res.disagree("spec", dict(inp, index=i), o, m["models"][i],
+                         {"ok": "value or NoSuchProcess/ZombieProcess/AccessDenied(pid=%d)" % inp["world"]["target"]},
+                         note="call %d (%s) of the history %s under %s leaks %s" % (i, nm, names, json.dumps(plan), json.dumps(o)))
+            return
+        ga = spec["gone_answer"][i]
+        if ga is not None:
+            after += 1
+        if ga is False and not (nm == "exe" and o["kind"] == "ok" and any(
+                n2 == "exe" and o2["kind"] == "ok" for n2, o2 in list(zip(names, outs))[:i])):
+            # (a memoised successful exe() is the documented exemption — and the model must agree below)
+            res.disagree("spec", dict(inp, index=i), o, m["models"][i], {"gone": "NoSuchProcess(pid) / is_running() False"},
+                         note="call %d (%s) of the history %s started at access %d, after the process was gone (from %s), "
+                              "and answered %s" % (i, nm, names, starts[i], inp.get("gone_from"), json.dumps(o)))
+            return
+    res.count("hist_calls_after_gone", after)
+    if unknown:
+        res.disagree("model", inp, {"unknown_access": unknown}, m["models"], None,
+                     note="an OS access of a kind the model does not know")
+        return
+    if outs != m["models"] or starts != m["starts"]:
+        res.disagree("model", inp, {"outs": outs, "starts": starts}, {"outs": m["models"], "starts": m["starts"]}, spec,
+                     note="history outcomes / call start indices differ from the Lean history model")
+        return
+    if trace != m["trace"]:
+        res.disagree("model", inp, {"trace": trace}, {"trace": m["trace"]}, spec,
+                     note="same outcomes but a different access trace over the history (model drift)")
+
+
+def run_history_input(ctx, bw, names, plan):
+    calls = [{"method": n} for n in names]
+    outs, starts, trace, unk = bw.run_history(calls, plan)
+    return outs, starts, trace, unk
+
+
+def explore_histories(ctx, res, bw, histories):
+    items, lines = [], [dict(bw.spec, op="world")]
+    for names in histories:
+        outs, starts, trace, unk = run_history_input(ctx, bw, names, {})
+        plans = [{}] + hist_plans(trace)
+        for plan in plans:
+            if plan:
+                outs, starts, trace, unk = run_history_input(ctx, bw, names, plan)
+            k0 = hist_gone_from(plan, len(trace))
+            items.append((names, plan, k0, outs, starts, trace, unk))
+            lines.append(hist_line(names, plan, outs, k0))
+    ms = ctx.driver().batch(lines)[1:]
+    for (names, plan, k0, outs, starts, trace, unk), m in zip(items, ms):
+        if "bad" in m:
+            raise InfraError("driver rejected a history %r: %s" % (names, m))
+        judge_history(res, {"world": bw.spec, "history": names, "plan": plan, "gone_from": k0}, outs, starts, trace, unk, m)
+    return len(items)
+
+
 def explore_world(ctx, res, bw, calls, doubles, batch, budget=None):
     n = 0
     for call in calls:
@@ -913,6 +1050,11 @@ def correspond(ctx, res):
             n = explore_world(ctx, res, bw, calls, doubles, batch)
             res.count("family:flat", n)
             total += n
+            if wi in (0, 1, nfixed - N_TREE) or (thorough and wi < nfixed + 3):
+                # family `history`: several calls on ONE object, the process vanishing at every index of the history
+                hs = list(FIXED_HISTORIES) if wi in (0, 1) else FIXED_HISTORIES[:2]
+                hs += [random_history(ctx.rng) for _ in range(ctx.n(4, 30) if wi == 0 else ctx.n(2, 10))]
+                total += explore_histories(ctx, res, bw, hs)
         finally:
             bw.close()
         batch.flush()
@@ -927,6 +1069,30 @@ def search(ctx, res, broken):
 
 
 # ------------------------------------------------------------------------------ replay / shrink
+
+def _run_hist_input(ctx, inp):
+    bw = BuiltWorld(ctx.psutil, inp["world"])
+    try:
+        outs, starts, trace, unk = run_history_input(ctx, bw, inp["history"], inp["plan"])
+        k0 = hist_gone_from(inp["plan"], len(trace))
+        m = ctx.driver().batch([dict(bw.spec, op="world"), hist_line(inp["history"], inp["plan"], outs, k0)])[1]
+        return outs, starts, trace, m
+    finally:
+        bw.close()
+
+
+def _hist_violates(inp, outs, m):
+    if "bad" in m:
+        return False
+    names = inp["history"]
+    for i, (nm, o) in enumerate(zip(names, outs)):
+        if not m["spec"]["ok"][i]:
+            return True
+        if m["spec"]["gone_answer"][i] is False and not (nm == "exe" and o["kind"] == "ok" and any(
+                n2 == "exe" and o2["kind"] == "ok" for n2, o2 in list(zip(names, outs))[:i])):
+            return True
+    return False
+
 
 def _run_input(ctx, inp):
     ps = ctx.psutil
@@ -952,12 +1118,37 @@ def replay(ctx, rp, res):
     inp = rp["input"]
     if "world" not in inp:
         return True
+    if "history" in inp:
+        outs, starts, trace, m = _run_hist_input(ctx, inp)
+        return _hist_violates(inp, outs, m)
     out, trace, m, _ = _run_input(ctx, inp)
     return _violates(inp, out, m)
 
 
 def shrink(ctx, d):
     inp = d["input"]
+    if "history" in inp:
+        # drop calls from the front / the back while the history still violates
+        cur = dict(inp)
+        changed = True
+        while changed and len(cur["history"]) > 1:
+            changed = False
+            for cand in (cur["history"][1:], cur["history"][:-1]):
+                i2 = dict(cur, history=cand)
+                i2.pop("index", None)
+                try:
+                    outs, starts, trace, m = _run_hist_input(ctx, i2)
+                except InfraError:
+                    continue
+                if _hist_violates(i2, outs, m):
+                    cur, changed = i2, True
+                    break
+        if cur is not inp:
+            outs, starts, trace, m = _run_hist_input(ctx, cur)
+            return dict(d, input=cur, impl=outs, model=m.get("models"), spec=m.get("spec"),
+                        note="shrunk history %s under %s gives %s (call starts %s); access trace %s"
+                             % (cur["history"], json.dumps(cur["plan"]), json.dumps(outs), starts, trace))
+        return d
     if "world" not in inp or inp.get("later"):
         return d
     ps = ctx.psutil
